@@ -8,7 +8,7 @@ CHECK_FLAGS = ['--bounds-check', '--pointer-check', '--conversion-check', '--div
                '--unsigned-overflow-check', '--pointer-overflow-check', '--signed-overflow-check']
 
 
-def _run(cmd, timeout, cwd=None):
+def _run(cmd, timeout, cwd=None, holder=None):
     t0 = time.time()
 
     def pre():
@@ -16,6 +16,8 @@ def _run(cmd, timeout, cwd=None):
         resource.setrlimit(resource.RLIMIT_AS, (MEM_KB * 1024, MEM_KB * 1024))
         os.setsid()
     p = subprocess.Popen(cmd, stdout=subprocess.PIPE, stderr=subprocess.PIPE, text=True, cwd=cwd, preexec_fn=pre)
+    if holder is not None:
+        holder['_proc'] = p
     try:
         out, err = p.communicate(timeout=timeout)
         to = False
@@ -81,7 +83,7 @@ def parse_json_out(txt):
     return res
 
 
-def run_cbmc(igb, solver, timeout, extra=(), trace=True, object_bits=12, checks=True):
+def run_cbmc(igb, solver, timeout, extra=(), trace=True, object_bits=12, checks=True, holder=None):
     cmd = ['cbmc', igb, '--json-ui', '--object-bits', str(object_bits)]
     if checks:
         cmd += CHECK_FLAGS
@@ -98,13 +100,13 @@ def run_cbmc(igb, solver, timeout, extra=(), trace=True, object_bits=12, checks=
     else:
         raise ValueError(solver)
     cmd += list(extra)
-    r = _run(cmd, timeout)
+    r = _run(cmd, timeout, holder=holder)
     r['parsed'] = parse_json_out(r['out']) if not r['timeout'] else None
     r['solver'] = solver
     return r
 
 
-def portfolio(members, timeout, need_all=False, object_bits=12):
+def portfolio(members, timeout, need_all=False, object_bits=12, kill=True):
     """members: dicts(label, igb, solver, extra, sof).  Runs all in parallel.  Finished when a full member
     gives a definitive answer (quick) / all full members answered (thorough), or a stop-on-fail member
     reports a failure."""
@@ -114,7 +116,7 @@ def portfolio(members, timeout, need_all=False, object_bits=12):
     full = [m for m in members if not m.get('sof')]
 
     def work(m):
-        r = run_cbmc(m['igb'], m['solver'], timeout, extra=m.get('extra', ()), object_bits=object_bits)
+        r = run_cbmc(m['igb'], m['solver'], timeout, extra=m.get('extra', ()), object_bits=object_bits, holder=m)
         with lock:
             results[m['label']] = r
             ok = r['parsed'] is not None and r['parsed']['status'] in ('success', 'failure')
@@ -131,10 +133,22 @@ def portfolio(members, timeout, need_all=False, object_bits=12):
     for t in ths:
         t.start()
     done.wait()
-    for m in members:
-        kill_children_matching(m['igb'])
-    for t in ths:
-        t.join(timeout=10)
+    if kill:
+        for m in members:
+            kill_children_matching(m['igb'])
+        for t in ths:
+            t.join(timeout=10)
+    else:
+        # several portfolios share one goto binary (split mode): stop only this portfolio's own processes
+        for m in members:
+            pr = m.get('_proc')
+            if pr is not None and pr.poll() is None:
+                try:
+                    os.killpg(pr.pid, signal.SIGKILL)
+                except Exception:
+                    pass
+        for t in ths:
+            t.join(timeout=10)
     return results
 
 
@@ -157,3 +171,67 @@ def kill_children_matching(igb):
     except Exception:
         pass
     # cvc5 children of killed cbmc processes get SIGPIPE/EOF and exit on their own
+
+
+def list_properties(igb, object_bits=12, checks=True):
+    cmd = ['cbmc', igb, '--show-properties', '--json-ui', '--object-bits', str(object_bits)] + (CHECK_FLAGS if checks else [])
+    r = _run(cmd, 300)
+    try:
+        for it in json.loads(r['out']):
+            if 'properties' in it:
+                return it['properties']
+    except Exception:
+        pass
+    return None
+
+
+CONTRACT_LEVEL = re.compile(r'postcondition|loop_invariant|precondition|assertion|loop_decreases|loop_step|loop_assigns')
+
+
+def split_run(igb, solvers, timeout, workers=6, object_bits=12, extra=(), log=None):
+    """every contract-level property on its own (first solver to answer wins), all other (support) properties
+    in one run.  Returns (props: list of dicts like cbmc's result entries + solver/secs, notes)."""
+    import concurrent.futures
+    props = list_properties(igb, object_bits)
+    notes = []
+    if props is None:
+        return None, ['could not list properties']
+    hard = [p for p in props if CONTRACT_LEVEL.search(p['name']) and 'builtin-library' not in p.get('sourceLocation', {}).get('file', '')]
+    rest = [p for p in props if p not in hard]
+    out = []
+
+    def one(group, label):
+        members = [dict(label=s, igb=igb, solver=s, extra=list(extra) + [x for p in group for x in ('--property', p['name'])]) for s in solvers]
+        rs = portfolio(members, timeout, need_all=False, object_bits=object_bits, kill=False)
+        best = None
+        for s, r in rs.items():
+            pz = r['parsed']
+            if pz is not None and pz['status'] in ('success', 'failure') and 'ignoring' not in ' '.join(pz['messages']):
+                best = (s, r, pz)
+                break
+        return group, best, rs
+    groups = [[p] for p in hard]
+    if rest:
+        groups.append(rest)
+    with concurrent.futures.ThreadPoolExecutor(max_workers=workers) as ex:
+        for group, best, rs in ex.map(lambda g: one(g, ''), groups):
+            if best is None:
+                for p in group:
+                    out.append(dict(property=p['name'], description=p.get('description', ''), sourceLocation=p.get('sourceLocation', {}), status='UNKNOWN', solver='', secs=timeout))
+                if len(group) == 1:
+                    notes.append('%s: no solver answered within %ds' % (group[0]['name'], timeout))
+                else:
+                    notes.append('support group (%d properties): no solver answered within %ds' % (len(group), timeout))
+                continue
+            s, r, pz = best
+            got = dict((x['property'], x) for x in pz['props'])
+            for p in group:
+                x = got.get(p['name'])
+                if x is None:
+                    out.append(dict(property=p['name'], description=p.get('description', ''), sourceLocation=p.get('sourceLocation', {}), status='UNKNOWN', solver=s, secs=r['secs']))
+                else:
+                    x = dict(x)
+                    x['solver'] = s
+                    x['secs'] = r['secs']
+                    out.append(x)
+    return out, notes
